@@ -471,54 +471,129 @@ def rule_mat(repo, rid='C03.MAT', strict=False):
                            'not a plain-torch matrix helper' if strict else
                            'matrix() is the action on the basis vectors (Act applied to an identity of the representation size, transposed back) or a '
                            'layout-checked matrix helper of the documented size (3 for SO3/so3, 4 otherwise); algebra types go through Exp first; '
-                           'LieTensor.matrix dispatches to the type'), floor=4)
-    # the method each concrete type resolves `matrix` to (along its MRO), judged once per method
-    todo = {}
-    for T, size, is_alg in [(G + 'Type', 3 if G == 'SO3' else 4, False) for G in GROUPS] + [(ALG[G] + 'Type', 3 if G == 'SO3' else 4, True) for G in GROUPS]:
-        ci = repo.cls(LT, T)
-        m = repo.find_method(ci, 'matrix')
-        if m is None:
-            raise AnalysisError('%s: %s has no matrix method' % (rid, T))
-        todo.setdefault(m.fq, (m, set(), set()))
-        todo[m.fq][1].add(size)
-        todo[m.fq][2].add(is_alg)
-    for fq, (f, sizes, algs) in sorted(todo.items()):
-        cname = f.qual.split('.')[0]
-        rets = returns_of(f.node)
-        vals = [rv(f.node, r) for r in rets]
-        ok, why = False, 'not <X>.unsqueeze(-2).Act(I).transpose(-1, -2)'
-        size = sorted(sizes)[0] if len(sizes) == 1 else None
-        act_forms = 0
-        for v in vals:
-            if isinstance(v, ast.Call) and isinstance(v.func, ast.Attribute) and v.func.attr == 'transpose' and sorted(src(a) for a in v.args) == ['-1', '-2']:
-                act = v.func.value
-                if isinstance(act, ast.Call) and isinstance(act.func, ast.Attribute) and act.func.attr == 'Act' and len(act.args) == 1:
-                    basis, recv = act.args[0], act.func.value
-                    eyes = [n for n in ast.walk(basis) if isinstance(n, ast.Call) and dotted(n.func) == 'torch.eye']
-                    esz = src(eyes[0].args[0]) if eyes and eyes[0].args else None
-                    n_ok = esz is not None and (size is None or esz == str(size))
-                    unsq = isinstance(recv, ast.Call) and isinstance(recv.func, ast.Attribute) and recv.func.attr == 'unsqueeze' and recv.args and src(recv.args[0]) == '-2'
-                    base = recv.func.value if unsq else None
-                    has_exp = base is not None and any(isinstance(n, ast.Call) and isinstance(n.func, ast.Attribute) and n.func.attr == 'Exp' for n in ast.walk(base))
-                    exp_ok = has_exp if algs == {True} else (not has_exp if algs == {False} else isinstance(base, ast.IfExp) and has_exp)
-                    if n_ok and unsq and exp_ok:
-                        act_forms += 1
-                    else:
-                        why = 'basis size ok: %s, acts on X.unsqueeze(-2): %s, Exp handling ok: %s' % (n_ok, unsq, exp_ok)
-            elif isinstance(v, ast.Call) and isinstance(v.func, ast.Attribute) and v.func.attr == 'matrix' and algs == {True} and \
-                    any(isinstance(n, ast.Call) and isinstance(n.func, ast.Attribute) and n.func.attr == 'Exp' for n in ast.walk(v.func.value)):
-                act_forms += 1          # algebra type: Exp first, then the group's matrix (judged on its own)
-        ok = bool(vals) and act_forms == len(vals)
-        if not ok and not strict:
-            helper_calls = [n for v in vals if v is not None for n in ast.walk(v) if isinstance(n, ast.Call) and isinstance(n.func, ast.Name) and '_Matrix' in n.func.id]
-            plain = all(v is not None and not any(isinstance(n, ast.Subscript) and not isinstance(n.value, ast.Name) for n in ast.walk(v)) for v in vals)
-            if helper_calls and plain and size is not None:
-                bad = [h.func.id for h in helper_calls if (h.func.id.endswith('_Matrix4x4')) != (size == 4)]
-                ok = not bad
-                why = None if ok else 'uses %s where the documented representation is %dx%d' % (bad, size, size)
-        res.inst({'function': f.fq, 'serves representation sizes': sorted(sizes), 'ok': ok}, f.fq)
-        if not ok:
-            res.add(Finding(rid, f, '%s.matrix is not the transposed action on the identity basis (%s)' % (cname, why), construct='matrix'))
+                           'LieTensor.matrix dispatches to the type'), floor=9)
+    # the method each concrete type resolves `matrix` to (along its MRO), judged for every type it serves: a base-class method shared by several types
+    # (or all of them, after a merge of the overrides) is evaluated with the attributes of each of them
+    dims = {}
+    for G in GROUPS:
+        for T in (G + 'Type', ALG[G] + 'Type'):
+            ini = repo.cls(LT, T).methods.get('__init__')
+            sup = [c for c in ast.walk(ini.node) if isinstance(c, ast.Call) and isinstance(c.func, ast.Attribute) and c.func.attr == '__init__' and len(c.args) == 3] if ini else []
+            if len(sup) != 1 or not all(isinstance(x, ast.Constant) for x in sup[0].args):
+                raise AnalysisError('%s: the (dimension, embedding, manifold) of %s were not found' % (rid, T))
+            dims[T] = dict(zip(('dimension', 'embedding', 'manifold'), [x.value for x in sup[0].args]))
+
+    class _NoEval(Exception):
+        pass
+
+    def ev(e, T, G):
+        """value of a size expression / type test for the concrete type T (group G)"""
+        if isinstance(e, ast.Constant):
+            return e.value
+        if isinstance(e, ast.IfExp):
+            return ev(e.body, T, G) if ev(e.test, T, G) else ev(e.orelse, T, G)
+        if isinstance(e, ast.UnaryOp) and isinstance(e.op, ast.Not):
+            return not ev(e.operand, T, G)
+        if isinstance(e, ast.BoolOp):
+            vs = [ev(v, T, G) for v in e.values]
+            return all(vs) if isinstance(e.op, ast.And) else any(vs)
+        if isinstance(e, ast.Attribute) and e.attr == 'on_manifold' and dotted(e.value) in ('self', 'cls'):
+            return dims[T]['dimension'] == dims[T]['manifold']
+        if isinstance(e, ast.Subscript) and isinstance(e.value, ast.Attribute) and e.value.attr in ('dimension', 'embedding', 'manifold') and dotted(e.value.value) in ('self', 'cls') \
+                and isinstance(e.slice, ast.Constant) and e.slice.value in (0, -1):
+            return dims[T][e.value.attr]
+        if isinstance(e, ast.Call) and dotted(e.func) == 'isinstance' and len(e.args) == 2 and dotted(e.args[0]) in ('self', 'cls'):
+            names = [dotted(x) for x in (e.args[1].elts if isinstance(e.args[1], ast.Tuple) else [e.args[1]])]
+            return T in names
+        if isinstance(e, ast.Compare) and len(e.ops) == 1:
+            l, r = e.left, e.comparators[0]
+            if isinstance(e.ops[0], (ast.Is, ast.Eq, ast.IsNot, ast.NotEq)):
+                for x, y in ((l, r), (r, l)):
+                    if isinstance(x, ast.Attribute) and x.attr == 'ltype' and isinstance(y, ast.Name) and y.id.endswith('_type'):
+                        # the ltype of the (Exp-ed) operand is the group type of T; of `self` the type itself
+                        is_exp = any(isinstance(n, ast.Call) and isinstance(n.func, ast.Attribute) and n.func.attr == 'Exp' for n in ast.walk(x.value)) or \
+                            any(isinstance(n, ast.Attribute) and n.attr == 'on_manifold' for n in ast.walk(x.value))
+                        cur = (G + '_type') if (is_exp or not T[0].islower()) else (T[:-4] + '_type')
+                        eq = cur == y.id
+                        return eq if isinstance(e.ops[0], (ast.Is, ast.Eq)) else not eq
+                    if dotted(x) in ('self', 'cls') and isinstance(y, ast.Name) and y.id.endswith('_type'):
+                        eq = (T[:-4] + '_type') == y.id
+                        return eq if isinstance(e.ops[0], (ast.Is, ast.Eq)) else not eq
+            a_, b_ = ev(l, T, G), ev(r, T, G)
+            table = {ast.Lt: lambda: a_ < b_, ast.LtE: lambda: a_ <= b_, ast.Gt: lambda: a_ > b_, ast.GtE: lambda: a_ >= b_, ast.Eq: lambda: a_ == b_, ast.NotEq: lambda: a_ != b_}
+            if type(e.ops[0]) in table:
+                return table[type(e.ops[0])]()
+        raise _NoEval(src(e)[:50])
+
+    judged = set()
+    for G in GROUPS:
+        for T, is_alg in ((G + 'Type', False), (ALG[G] + 'Type', True)):
+            size = 3 if G == 'SO3' else 4
+            ci = repo.cls(LT, T)
+            f = repo.find_method(ci, 'matrix')
+            if f is None:
+                raise AnalysisError('%s: %s has no matrix method' % (rid, T))
+            cname = f.qual.split('.')[0]
+            rets = returns_of(f.node)
+            vals = [rv(f.node, r) for r in rets]
+            ok, why = False, 'not <X>.unsqueeze(-2).Act(I).transpose(-1, -2)'
+            act_forms = 0
+            for v in vals:
+                if isinstance(v, ast.Call) and isinstance(v.func, ast.Attribute) and v.func.attr == 'transpose' and sorted(src(a) for a in v.args) == ['-1', '-2']:
+                    act = v.func.value
+                    if isinstance(act, ast.Call) and isinstance(act.func, ast.Attribute) and act.func.attr == 'Act' and len(act.args) == 1:
+                        basis, recv = act.args[0], act.func.value
+                        eyes = [n for n in ast.walk(basis) if isinstance(n, ast.Call) and dotted(n.func) == 'torch.eye']
+                        try:
+                            esz = ev(eyes[0].args[0], T, G) if eyes and eyes[0].args else None
+                        except _NoEval as ex:
+                            raise AnalysisError('%s: the basis size `%s` of %s.matrix could not be evaluated for %s' % (rid, ex, cname, T))
+                        n_ok = esz == size
+                        unsq = isinstance(recv, ast.Call) and isinstance(recv.func, ast.Attribute) and recv.func.attr == 'unsqueeze' and recv.args and src(recv.args[0]) == '-2'
+                        base = recv.func.value if unsq else None
+                        try:
+                            # is the operand Exp-ed for this type: X = input.Exp() if self.on_manifold else input
+                            def exped(b_):
+                                if isinstance(b_, ast.IfExp):
+                                    return exped(b_.body) if ev(b_.test, T, G) else exped(b_.orelse)
+                                return any(isinstance(n, ast.Call) and isinstance(n.func, ast.Attribute) and n.func.attr == 'Exp' for n in ast.walk(b_))
+                            has_exp = base is not None and exped(base)
+                        except _NoEval as ex:
+                            raise AnalysisError('%s: the operand `%s` of %s.matrix could not be evaluated for %s' % (rid, ex, cname, T))
+                        exp_ok = has_exp == is_alg
+                        # the basis is aligned by broadcasting: left as (n, n), or viewed with as many leading ones as the operand has batch axes - a FIXED number
+                        # of leading axes adds an axis to an un-batched operand
+                        views = [n for n in ast.walk(basis) if isinstance(n, ast.Call) and isinstance(n.func, ast.Attribute) and n.func.attr in ('view', 'reshape', 'expand')]
+                        view_ok = True
+                        for vw in views:
+                            shape = vw.args[0] if len(vw.args) == 1 else ast.Tuple(list(vw.args), ast.Load())
+                            rank_dep = any(isinstance(n, ast.Call) and isinstance(n.func, ast.Attribute) and n.func.attr in ('dim', 'ndimension') or
+                                           isinstance(n, ast.Attribute) and n.attr in ('ndim', 'shape', 'lshape') for n in ast.walk(shape))
+                            nelts = len(shape.elts) if isinstance(shape, (ast.Tuple, ast.List)) else None
+                            if not rank_dep and nelts is not None and nelts > 2:
+                                view_ok = False
+                        if n_ok and unsq and exp_ok and view_ok:
+                            act_forms += 1
+                        elif not view_ok:
+                            why = 'the identity basis is viewed with a FIXED number of leading axes: an un-batched element gets a (1, n, n) matrix'
+                        else:
+                            why = 'basis size %s (documented %d): %s, acts on X.unsqueeze(-2): %s, Exp handling ok: %s' % (esz, size, n_ok, unsq, exp_ok)
+                elif isinstance(v, ast.Call) and isinstance(v.func, ast.Attribute) and v.func.attr == 'matrix' and is_alg and \
+                        any(isinstance(n, ast.Call) and isinstance(n.func, ast.Attribute) and n.func.attr == 'Exp' for n in ast.walk(v.func.value)):
+                    act_forms += 1          # algebra type: Exp first, then the group's matrix (judged on its own)
+            ok = bool(vals) and act_forms == len(vals)
+            if not ok and not strict:
+                helper_calls = [n for v in vals if v is not None for n in ast.walk(v) if isinstance(n, ast.Call) and isinstance(n.func, ast.Name) and '_Matrix' in n.func.id]
+                plain = all(v is not None and not any(isinstance(n, ast.Subscript) and not isinstance(n.value, ast.Name) for n in ast.walk(v)) for v in vals)
+                if helper_calls and plain:
+                    bad = [h.func.id for h in helper_calls if (h.func.id.endswith('_Matrix4x4')) != (size == 4)]
+                    ok = not bad
+                    why = None if ok else 'uses %s where the documented representation is %dx%d' % (bad, size, size)
+            res.inst({'type': T, 'matrix method': f.fq, 'documented size': size, 'ok': ok}, (T, f.fq))
+            if not ok and (f.fq, why) not in judged:
+                judged.add((f.fq, why))
+                res.add(Finding(rid, f, '%s.matrix (serving %s) is not the transposed action on the identity basis of the documented size (%s)' % (cname, T, why),
+                                construct='matrix|' + (why or '')[:40]))
     f = repo.func(LT, 'LieTensor.matrix')
     rets = returns_of(f.node)
     v = rv(f.node, rets[0]) if len(rets) == 1 else None
